@@ -94,6 +94,11 @@ HISTORY = {
     "C08-exclusive-range-one-value-rejected": "missed at first: the range-pattern sweep only said when a pattern MUST be refused; a non-empty range with consistent suffixes and end points inside the type must now be accepted (also a range of exactly one value)",
     "C09-resolve-const-type-inner-array": "missed by C09 (which has no constants); C12 reports it (literal API over nested const-sized arrays)",
     "C13-sorter-skip-shared-key-wires": "missed by C13 at first (C04 caught it through a family S join): keys never shared wires; two-bit keys whose high bit is a constant or a shared input are now sorted for every assignment of key sources",
+    "C01-const-wrap-mask-no-sign-extension": "missed by C01 (whose families have no constants); C12 reports it (signed constants with + / - under min / max)",
+    "C05-mul-literal-zero-width": "missed by every check at first: no template multiplied by an unsuffixed 0; 96 generated templates (8 operators x literals 0 / 1 / 2 x {x op lit, lit op x, x op= lit, inside an if branch}) added to family I",
+    "C13-join-key-only-tuples-no-assoc": "missed by every check at first: rows were plain keys or tuples with a payload; one-field tuple rows `(key)` added to the join built-in check",
+    "C14-join-eq-tag-b-only": "missed by C14 (for-join loops over tables with a repeated key are outside the loop's precondition); C13 reports it through the join built-in, which must tolerate repeated keys",
+    "C17-signed-split-max-not-examined": "missed by C17 at first (C08 caught it): the refutable patterns of the menu were literals, Booleans and small ranges; ranges that miss exactly one value at an end of i8 / u8 / i16 / i32 / u64 added",
     "C17-match-arms-share-scope": "missed at first: UseAfterScope only covered loop variables and block locals; replaced by a reference model of lexical scoping (every use x every name bound elsewhere but not in scope)",
 }
 rows = []
